@@ -94,7 +94,7 @@ impl Property for C12 {
             .boxed()
     }
     fn quota(tier: Tier) -> u64 {
-        tier.pick(200_000, 4_000_000)
+        tier.pick(2_000_000, 40_000_000)
     }
     fn rule() -> String {
         "A valid geometry of any type from the scene generator (polygons with holes, holes touching the shell, concave polyomino \
